@@ -1466,6 +1466,15 @@ def _cross_tally(ctx, inp):
 
 
 def _stage_forms(ctx):
+    # what the harness assumes of pydantic / data.Tag: every construction variant yields an object with the same fields
+    # (read back from the object, no __eq__ involved), alone and around a shared Term object
+    for d in FORM_POOL + TP.LEGACY[:3]:
+        want = jkey(TP.read_back(TP.fresh(d)))
+        for form in TP.FORMS:
+            for shared in (False, True):
+                got = TP.read_back(TP.fresh(d, form, TP.fresh(d).term if shared else None))
+                ctx.contract("tag-construction-variant-keeps-the-fields", jkey(got) == want,
+                             {"descriptor": d, "form": form, "shared_term": shared}, got)
     for t in G.TASKS:
         cases = _gen_form_cases(ctx.rng, t, reps=ctx.budget(1, 4))
         for c in cases:
